@@ -440,7 +440,8 @@ class Walker:
                 _aug_cache[key] = aug
             return self.stmt(_aug_cache[key], states, frame)
         if isinstance(st, ast.Assign):
-            states = self.expr(st.value, states, frame)
+            # (`flag = a and b` evaluates b only when a holds, exactly like `if a and b:`)
+            states = self.test_expr(st.value, states, frame) if isinstance(st.value, ast.BoolOp) else self.expr(st.value, states, frame)
             if self.reads is not None:
                 for tgt in st.targets:
                     attrs, locs = self._loads(tgt, frame)
